@@ -49,13 +49,17 @@ class _DictPlaceholder:
 class _float(float):
     # Numerical objects of either integer or float type, that share the same numerical value,
     # but not the same type, are distinguished within a search index, but considered equal within
-    # Python. We manipulate the hash value, to enable the storage of both an int and a float
-    # that share the same numerical value within a search index (dict).
+    # Python. To enable the storage of both an int and a float that share the same numerical
+    # value within a search index (dict), floats are wrapped in this class, which is only equal
+    # to other wrapped floats.
+    def __eq__(self, other):
+        return type(other) is _float and float(self) == float(other)
 
-    # There is no risk of accidentally equating ints and floats with different values, since the
-    # hash equality is only a necessary, not a sufficient condition for equality.
+    def __ne__(self, other):
+        return not self == other
+
     def __hash__(self):
-        return super().__hash__() + 1
+        return hash((float, float(self)))
 
 
 class _bool(int):
